@@ -3500,7 +3500,19 @@ impl<'a, R: FileManager> FrontendCtx<'a, R> {
                 let mut prefix_items = vec![];
                 let mut items = None;
                 for it in elem_types {
-                    if let TsType::TsRestType(TsRestType { type_ann, .. }) = &*it.ty {
+                    // a named member carries `...` and `?` on its label: `[x: number, ...rest: string[]]`, `[a?: string]`
+                    let rest_type_ann = match (&*it.ty, &it.label) {
+                        (TsType::TsRestType(TsRestType { type_ann, .. }), _) => Some(type_ann),
+                        (_, Some(swc_ecma_ast::Pat::Rest(_))) => Some(&it.ty),
+                        _ => None,
+                    };
+                    if let Some(swc_ecma_ast::Pat::Ident(label)) = &it.label {
+                        if label.id.optional {
+                            return self
+                                .error(&anchor, DiagnosticInfoMessage::OptionalTypeIsNotSupported);
+                        }
+                    }
+                    if let Some(type_ann) = rest_type_ann {
                         if items.is_some() {
                             return self.error(
                                 &anchor,
